@@ -150,6 +150,62 @@ def case_lists_roundtrip(ctx, s: Subject):
                      nontrivial=s.nontrivial())
 
 
+def case_field_subset_roundtrip(ctx, s: Subject):
+    """the flat / list view of SOME of the fields (any order, not a prefix of the stored order) packs back into the
+    column of exactly those fields: every name keeps its own values and element type"""
+    from nested_pandas.series.packer import pack_flat, pack_lists
+    names = [n for n, _ in s.ty]
+    if len(names) < 2:
+        return
+    sub = ctx.rng.sample(names, ctx.rng.randint(1, len(names)))
+    if sub == names[:len(sub)]:
+        sub = sub[::-1] if len(sub) > 1 else [names[-1]]
+    tymap = dict(map(tuple, s.ty))
+    sty = [[n, tymap[n]] for n in sub]
+    rows = weak_rows(s.content["rows"])
+    srows = [None if r is None else [[n, dict(map(tuple, r))[n]] for n in sub] for r in rows]
+    n = len(rows)
+    labels = gen.rand_labels(ctx.rng, n, pattern="unique_sorted")
+    ser = gen.mk_series(s.ca, labels, "nest")
+    keep = [i for i, r in enumerate(rows) if r is not None and len(r[0][1]) > 0]
+    spec = {"ok": {"index": [export.label(labels[i]) for i in keep], "col": {"ty": sty, "rows": [srows[i] for i in keep]}}}
+    real = call_real(lambda: ser_view(pack_flat(ser.nest.to_flat(fields=sub))))
+    ctx.case("pack_flat∘to_flat", {**s.desc(), "labels": labels, "fields": sub}, real, None, spec, hyp=s.hyp,
+             features=s.features + ("field_subset",), nontrivial=s.nontrivial())
+    empt = [[n, []] for n in sub]
+    spec = {"ok": {"index": [export.label(l) for l in labels], "col": {"ty": sty, "rows": [empt if r is None else r for r in srows]}}}
+    real = call_real(lambda: ser_view(pack_lists(ser.nest.to_lists(fields=sub))))
+    ctx.case("pack_lists∘to_lists", {**s.desc(), "labels": labels, "fields": sub}, real, None, spec, hyp=s.hyp,
+             features=s.features + ("field_subset",), nontrivial=s.nontrivial())
+
+
+def case_tables_without_dtype(ctx):
+    """the element view given as plain (numpy-typed) per-row tables and packed WITHOUT a dtype: rows are missing, empty
+    or non-empty exactly as the tables say — also tables without rows ahead of the first table with rows"""
+    from nested_pandas.series.packer import pack_seq, pack
+    rng = ctx.rng
+    ty = gen.rand_ty(rng, types=["int64", "double", "bool", "timestamp[ns]"])
+    n = rng.choice([1, 2, 3, 4, 6])
+    rows = [gen.rand_row(rng, ty, p_missing=0.2, p_empty=0.4, p_null=0.0, p_nan=0.0) for _ in range(n)]
+    if all(r is None or len(r[0][1]) == 0 for r in rows):
+        k = rng.randrange(n)
+        rows[k] = [[nm, [gen.rand_cell(rng, t, p_null=0.0, p_nan=0.0)]] for nm, t in ty]
+    labels = gen.rand_labels(rng, n)
+
+    def table(r):
+        if r is None:
+            return None
+        return pd.DataFrame({nm: gen.flat_array(cells, dict(map(tuple, ty))[nm]).to_pandas() for nm, cells in r})
+    tables = [table(r) for r in rows]
+    spec = {"ok": {"index": [export.label(l) for l in labels], "col": {"ty": ty, "rows": weak_rows(rows)}}}
+    lead = next((i for i, r in enumerate(rows) if r is not None and len(r[0][1]) > 0), n)
+    feats = (f"leading_empty={any(r is not None for r in rows[:lead])}", f"leading_missing={any(r is None for r in rows[:lead])}")
+    for nm, fn in (("pack_seq", lambda: pack_seq(tables, index=pd.Index(labels))), ("pack", lambda: pack(tables, index=pd.Index(labels)))):
+        real = call_real(lambda: ser_view(fn()))
+        ctx.case(f"{nm}∘tables.no_dtype", {"ty": ty, "rows": rows, "labels": labels}, real, None, spec, features=feats + (nm,),
+                 nontrivial=True)
+
+
 def run_all(ctx):
     rng = ctx.rng
     for i in range(ctx.budget(150, 2000)):
@@ -166,6 +222,9 @@ def run_all(ctx):
         s = Subject(ctx)
         case_flat_pack_roundtrip(ctx, s)
         case_lists_roundtrip(ctx, s)
+        case_field_subset_roundtrip(ctx, s)
+        if i % 2 == 0:
+            case_tables_without_dtype(ctx)
     history_same_object(ctx, ctx.budget(20, 200))
     # `NestedFrame.from_flat` / `add_nested` pack through the same code: the records of a label stay with the label
     from . import ops_nf
